@@ -226,6 +226,17 @@ class ParameterParser(Logger):
         config = self._raw_config.dict()
         if 'Observation' in config:
             observation_config = config['Observation']
+            file_keys = ('lightcurve', 'observed_spectrum',
+                         'taurex_spectrum', 'iraclis_spectrum', )
+            if any(k in observation_config for k in file_keys):
+                # Exactly one of these keys and nothing else may be given
+                if len(observation_config) > 1:
+                    self.error('[Observation] accepts only one of %s, '
+                               'found %s', file_keys,
+                               list(observation_config.keys()))
+                    raise KeyError('Unknown parameters in [Observation]: '
+                                   '{}'.format(list(
+                                       observation_config.keys())))
             if 'lightcurve' in observation_config:
                 from taurex.data.spectrum.lightcurve import ObservedLightCurve
                 return ObservedLightCurve(observation_config['lightcurve'])
